@@ -23,11 +23,47 @@ CUSTOM_TYPES = ["X", "Y", "Z1", "ab", "?"]
 INV = {"+": "-", "-": "+"}
 
 
+import os as _os
+# Hypothesis' random source favours "simple" draws (randrange -> 0, random() -> 0.0): the first
+# element of a list is chosen two to three times as often as the others and `random() < 0.05`
+# holds a quarter of the time.  Good for boundaries, bad for the nominal mixture the builders
+# were written for.  Each case therefore decides once (with its first draw) whether its
+# choice()/chance() calls use the raw draws or mix the drawn bits into uniform ones; measured
+# effect on the share of non-trivial cases: DESIGN.md section 3.  VERIF_FAIR_CHOICE=0/1 forces it.
+_MODE = _os.environ.get("VERIF_FAIR_CHOICE", "mix")
+
+
+def _fair(r):
+    f = getattr(r, "_vf_fair", None)
+    if f is None:
+        if _MODE == "0" or not hasattr(r, "getrandbits"):
+            f = False
+        elif _MODE == "1":
+            f = True
+        else:
+            f = r.getrandbits(2) != 0
+        r._vf_fair = f
+    return f
+
+
+def _mix(r):
+    b = r.getrandbits(32)
+    b = ((b + 0x9E3779B9) * 0x85EBCA6B) & 0xFFFFFFFF
+    b ^= b >> 13
+    b = (b * 0xC2B2AE35) & 0xFFFFFFFF
+    b ^= b >> 16
+    return b
+
+
 def choice(r, seq):
+    if _fair(r):
+        return seq[_mix(r) % len(seq)]
     return seq[r.randrange(len(seq))]
 
 
 def chance(r, p):
+    if _fair(r):
+        return _mix(r) < p * 4294967296.0
     return r.random() < p
 
 
@@ -35,12 +71,7 @@ def fair(r, p):
     """Like chance(), for rare branches: Hypothesis' random() favours 0.0 and other simple
     values, which makes `random() < 0.05` true about a quarter of the time; the drawn bits
     are mixed here so that the nominal probability holds under Hypothesis as well."""
-    b = r.getrandbits(32)
-    b = ((b + 0x9E3779B9) * 0x85EBCA6B) & 0xFFFFFFFF
-    b ^= b >> 13
-    b = (b * 0xC2B2AE35) & 0xFFFFFFFF
-    b ^= b >> 16
-    return b < p * 4294967296.0
+    return _mix(r) < p * 4294967296.0
 
 
 # ------------------------------------------------------------------ tag values
